@@ -364,7 +364,7 @@ class Machine:
             # our va_list: pointer to a cursor cell holding an index into self.valists
             self.valists = getattr(self, 'valists', [])
             self.valists.append(list(varargs))
-            self.store(p, 8, len(self.valists) - 1); self.store(p + 8, 8, 0)
+            self.store(p, 8, len(self.valists) << 32)
         else:
             raise ILError('unknown instruction %s' % ' '.join(t))
 
@@ -419,11 +419,12 @@ class Machine:
             return v & MASK
         if op == 'vaarg':
             # the va_list storage holds (id of the argument list, position): copying the storage (va_copy) gives an independent cursor
-            p = V(0, 'l'); idx = self.load(p, 8); pos = self.load(p + 8, 8)
-            if idx >= len(getattr(self, 'valists', [])): raise Trap('va_arg on a va_list that was not started')
+            # one 8-byte word (the smallest va_list, riscv64's pointer): list id in the upper half, position in the lower half
+            p = V(0, 'l'); word = self.load(p, 8); idx, pos = (word >> 32) - 1, word & 0xffffffff
+            if idx < 0 or idx >= len(getattr(self, 'valists', [])): raise Trap('va_arg on a va_list that was not started')
             lst = self.valists[idx]
             if pos >= len(lst): raise Trap('va_arg past the last argument')
-            c, v = lst[pos]; self.store(p + 8, 8, pos + 1)
+            c, v = lst[pos]; self.store(p, 8, (idx + 1) << 32 | (pos + 1))
             if (c in ('s', 'd')) != (cls in ('s', 'd')): raise Trap('va_arg class %s for an argument passed as %s' % (cls, c))
             if cls in ('w', 'l') and c in ('w', 'l') and cls != c and cls == 'l': raise Trap('va_arg reads 64 bits of an argument passed as 32 bits')
             return v & MASK if isinstance(v, int) else v
